@@ -154,7 +154,7 @@ std::string OpResult::line() const
 	if (!diags.empty()) {
 		s += " diags=[";
 		for (auto &d : diags)
-			s += d.file + ":" + std::to_string(d.line) + "@" + d.sec + ",";
+			s += d.file + ":" + std::to_string(d.line) + "@" + d.sec + ":" + esc(d.msg) + ",";
 		s += "]";
 	}
 	if (!cbs.empty()) {
@@ -378,9 +378,14 @@ static int sim_func(cfg_t *cfg, cfg_opt_t *opt, int argc, const char **argv)
 
 static void sim_errfunc(cfg_t *cfg, const char *fmt, va_list ap)
 {
-	(void)fmt;
-	(void)ap;
 	Diag d;
+	// the message is formatted here, under ASan: a dangling argument is a defect of the caller
+	char buf[512];
+	va_list ap2;
+	va_copy(ap2, ap);
+	vsnprintf(buf, sizeof buf, fmt ? fmt : "(null format)", ap2);
+	va_end(ap2);
+	d.msg = buf;
 	d.file = cfg && cfg->filename ? cfg->filename : "(null)";
 	d.line = cfg ? cfg->line : -1;
 	d.sec = cfg && cfg->name ? cfg->name : "?";
